@@ -29,6 +29,9 @@ Definition is_quoted_char (t : N) : bool := tbl_lookup tbl_IsQuotedChar t.
 Definition is_quoted_special (t : N) : bool := tbl_lookup tbl_IsQuotedSpecial t.
 Definition is_resp_special (t : N) : bool := tbl_lookup tbl_IsRespSpecial t.
 Definition is_ctl (t : N) : bool := tbl_lookup tbl_IsCTL t.
+(* ParseQuoted, after a backslash: ConsumeWith(IsQuotedSpecial) — or, if the source says otherwise, anything but EOF *)
+Definition quoted_escape_ok (t : N) : bool :=
+  if quoted_escape_requires_special then is_quoted_special t else negb (t =? scan_eof).
 
 (* imap/command/parser.go parseTag: isTagChar *)
 Definition is_tag_char (t : N) : bool := is_astring_char t && negb (t =? TT_Plus).
